@@ -155,7 +155,8 @@ def ids_of(v):
     return res
 
 
-LEAVES = ['a', 'b', 'x', 'y', '0', '1', 'true', '+', 'and', 'f', 'let', '()', 'é', '\U0001F600', 'ab', '"s t"', '|q|', '', ' ', '\n', '\x00', 'z' * 300]      # incl. the empty text
+LEAVES = ['a', 'b', 'x', 'y', '0', '1', 'true', '+', 'and', 'f', 'let', '()', 'é', '\U0001F600', 'ab', '"s t"', '|q|', '', ' ', '\n', '\x00', 'z' * 300,
+          '\x0c', '\xa0', '\u2028']      # incl. the empty text
 
 
 def gen_small_shape(rng, depth, leaves=LEAVES):
